@@ -90,9 +90,15 @@ def gen_match (rng, respect=True):
       if not maybe(0.7): continue
       a = rint(rng, 32)
       bits = rng.choice([32, 32, 24, 16, 8, 1, 31, rng.randrange(1, 33)])
-      how = rng.randrange(6) if respect else 0
+      how = rng.randrange(9) if respect else 0
       if how == 0:
         v = (IPAddr(a), bits)
+      elif how >= 6:
+        # ... and as a number: unsigned, or signed as IPAddr.toSigned() and
+        # C-style code hand addresses around (negative from 128.0.0.0 on)
+        sa = a - (1 << 32) if (a >> 31) and how >= 7 else a
+        if how == 8: v = (sa, bits)
+        else: v = sa; bits = 32
       else:
         # the other ways a caller may write an address with a prefix length:
         # CIDR text, netmask text, a bare address (text or object)
